@@ -47,6 +47,17 @@ CLAIMED["C13"] = dict(
     technique="Lean 4 inductive-invariant proof over an LTS + ledger theorem + trace-acceptance correspondence + soak",
     design="DESIGN.md section 4, C13")
 
+CLAIMED["C17"] = dict(
+    text="24 Lean 4 theorems over unbounded n, strides, ranges, grain >= 1, step >= 1, task counts and sizes, and all fork-join schedules: create_join_various/many equal the sequential loop (order on one worker, permutation on N), each strided slot written exactly once, nothing else written, n = 0 does nothing; parallel_for (all index forms, grain and range forms) terminates and calls the body exactly once per index, not at all for empty/reversed ranges; task_group wait joins exactly the tasks added, list shape and task-memory blocks disjoint. Termination proved with fuel + fuel-independence; the pinned parallel_for is refuted for every fuel. Tie: differential execution of the real helpers / headers against drv_bulk (exact one-worker event order through MYTH_VP_BULK_* hooks, multisets on 2-8 workers) + a model-independent oracle (call multiset, slots, guard bytes, returns); a hang is a result.",
+    note="Trusted: Lean kernel; myth_create/myth_join behave as fork and join (C01); index arithmetic does not overflow (Int/Nat models, C '/' as Int.tdiv); blocked_range as in TBB; `new` returns fresh memory; harness bulk_unit.c / bulk_mtbb.cc. Outside the domain (TBB preconditions): step <= 0, grain <= 0, n < 0.",
+    technique="Lean 4 proof (induction over the divide-and-conquer, tilings, allocator invariant, fork-join schedule semantics) + output correspondence",
+    design="DESIGN.md section 4, C17")
+CLAIMED["C03"] = dict(
+    text="Lean 4 theorems about the instruction lists REGENERATED on every run from the four amd64 inline-asm templates of myth_context_func.h, for every machine state, every SysV callback and every pair (suspend by swap | swap-with-callback) x (resume by swap | swap-with-callback | set_context | set_context-with-callback): rsp, rbp, rbx, r12-r15, the red zone and owned stack are restored exactly; the context is saved before the callback runs; the callback runs on the target stack and stores only below it; frame size and both make_context functions keep the 16-byte ABI alignment; the final-jump variants use nothing of the finished thread; the constraint lists cover every GPR. Tie: translator with objdump self-check (-O0, -O2), model-vs-CPU differential of the regenerated lists, register/stack/alignment probe on the real library at -O0/-O2 with 1-8 workers through 16 switch kinds.",
+    note="Trusted: Lean kernel; translate/asm_extract.py (self-checked against objdump); Model/X86.lean mini semantics (checked against the CPU each run); GCC honours asm constraints; SysV callbacks. Assumed: no other thread writes into a suspended stack; rsp = 0 mod 16 at the asm statements (sampled in every callback); vector/x87 state caller-saved and FP control words shared per worker (MYTH_SAVE_FPCSR = 0). Probe interleavings on several workers are not exactly replayable.",
+    technique="Lean 4 proof by symbolic execution of translated x86-64 code + translator self-check + model/CPU differential + runtime probe",
+    design="DESIGN.md section 4, C03")
+
 NA_REASON = "not yet claimed in this revision: model/theorems/correspondence for this property are still being built (see DESIGN.md section 8 build order); no other technique is substituted"
 
 
